@@ -176,6 +176,21 @@ func TestProp(t *testing.T) {
 	})
 }
 
+// TestWide stresses sibling ordering with 13..30 siblings under one node.
+func TestWide(t *testing.T) {
+	evid.Rapid(t, "routeset", 600, 10000, func(t *rapid.T) {
+		regs := gen.WideSet(t)
+		regs = rapid.Permutation(regs).Draw(t, "order")
+		regs = revalidate(regs)
+		c := Case{Regs: regs, Reqs: gen.Requests(t, regs, 16)}
+		evid.Run(t, "routeset", c, func() evid.Outcome {
+			o := checkCase(c)
+			o.Classes = append(o.Classes, "wide-set")
+			return o
+		})
+	})
+}
+
 // revalidate drops registrations that the permutation made invalid (validity
 // depends on order only through duplicates/clashes, which are symmetric, so
 // this normally keeps everything).
